@@ -106,10 +106,16 @@ def apply_op(op, i, e, m, ds, ref, d, vals, real=False):
     elif op == 'foreign_tsv':
         write_text(d, 'cluster_group.tsv', 'cluster_id\tgroup\n0\tgood\n3\tnoise\n', real)
         ref.meta['group'] = {0: 'good', 3: 'noise'}
+        # legacy layout: tab-delimited table with a .csv name (the delimiter is read from the header line)
+        write_text(d, 'cluster_groups.csv', 'cluster_id\tlgroup\n1\tmua\n', real)
+        ref.meta['lgroup'] = {1: 'mua'}
     elif op == 'foreign_csv':
         write_text(d, 'cluster_depth.csv', 'cluster_id,depth,ch\n1,2.5,7\n2,,3\n', real)
         ref.meta['depth'] = {1: 2.5}
         ref.meta['ch'] = {1: 7, 2: 3}
+        # comma-delimited table with a .tsv name
+        write_text(d, 'exported_notes.tsv', 'cluster_id,cnote\n2,ok\n', real)
+        ref.meta['cnote'] = {2: 'ok'}
     elif op == 'foreign_collide':
         # a legacy table of another tool carrying columns named like fields that are (or will be) saved:
         # the saved mapping is what a reload must show, whatever the file names are
